@@ -20,7 +20,8 @@ import (
 )
 
 const (
-	maxStepPositions = 300
+	maxStepPositions = 300 // histories with at most this many VM instructions are swept exhaustively
+	stepSamples      = 120 // sampled positions beyond
 	maxLimit         = 64
 )
 
@@ -46,13 +47,13 @@ func Check() *core.Check {
 		},
 		Cases: func(tier string) int {
 			if tier == "thorough" {
-				return 16000
+				return 8000
 			}
-			return 1500
+			return 600
 		},
 		MinConclusive: func(tier string) int { return 200 },
 		NumPinned:     len(pinned),
-		CaseTimeoutS:  60,
+		CaseTimeoutS:  300,
 		Run:           run,
 	}
 }
@@ -85,7 +86,8 @@ func (j *judgeCtx) count(name string, n int64) {
 }
 
 var interestingTags = map[string]bool{"try": true, "catch": true, "finally": true, "iter": true, "with": true, "gen": true, "async": true, "job": true,
-	"native": true, "reentry": true, "tryframes": true, "getter": true, "ctor": true, "calls": true, "scope": true}
+	"native": true, "reentry": true, "tryframes": true, "getter": true, "ctor": true, "scope": true,
+	"comparator": true, "callback": true, "iternext": true, "iterreturn": true, "fieldinit": true, "eval": true, "setter": true, "valueof": true, "method": true}
 var nontrivialTags = map[string]bool{"try": true, "catch": true, "finally": true, "iter": true, "with": true, "gen": true, "async": true, "job": true, "native": true, "reentry": true, "tryframes": true}
 
 func (j *judgeCtx) judge(f faultSpec) (*runObs, *problem) {
@@ -104,7 +106,7 @@ func (j *judgeCtx) judge(f faultSpec) (*runObs, *problem) {
 		// position not reached in this run (cannot happen for positions taken from the fault-free run unless an earlier fault changed the path)
 		j.inc("fault_not_reached")
 	}
-	if obs.FaultHit || (f.Kind == fMaxCS && obs.Overflowed) {
+	if obs.FaultHit || (f.Kind == fMaxCS && obs.HistOverflowed) {
 		j.inc("faults_injected:" + f.Kind)
 		tags := obs.FaultTags
 		if f.Kind == fMaxCS && obs.FaultCall >= 0 {
@@ -153,8 +155,9 @@ func (j *judgeCtx) judge(f faultSpec) (*runObs, *problem) {
 
 	// (4) transplant
 	nprob := len(obs.Problems)
+	idleBefore := obs.IdleChecks
 	fr := e.followUp("")
-	j.count("idle_assertions", int64(obs.IdleChecks))
+	j.count("idle_assertions", int64(obs.IdleChecks-idleBefore))
 	if obs.Fuel {
 		j.inc("fuel_exhausted_runs")
 		return obs, nil
@@ -198,10 +201,6 @@ func (j *judgeCtx) judge(f faultSpec) (*runObs, *problem) {
 	if d := diffLogs(fr.Log, fresh.Log); d != "" {
 		return obs, &problem{Monitor: "transplant", Class: "battery:" + classOfDiff(fr.Log, fresh.Log), Call: -1,
 			Detail: "follow-up battery differs between the runtime that went through the history and a fresh runtime with the same visible global state:\n" + d}
-	}
-	if fr.Dump2 != fresh.Dump2 {
-		return obs, &problem{Monitor: "transplant", Class: "final-dump", Call: -1,
-			Detail: "global state after the battery differs:\n used:  " + trunc(fr.Dump2, 1200) + "\n fresh: " + trunc(fresh.Dump2, 1200)}
 	}
 	j.count("battery_log_lines_compared", int64(len(fr.Log)))
 	obs.Battery = fr.Log
@@ -393,6 +392,7 @@ func signature(p *problem, f faultSpec, h *history) string {
 // enumerate runs the fault-free history and then every fault; it returns the first violation (nil if none).
 // only != "" restricts the enumeration to one fault kind (minimiser).
 func enumerate(h *history, st *core.Stats, quiet bool, only string, rng *core.Rng) (viol *violation, nontrivial bool, inconclusive string) {
+	allSteps := quiet // the minimiser must not lose the failing position to the sampling
 	j := &judgeCtx{h: h, stats: st, quiet: quiet, freshCache: map[string]*followRes{}}
 	ref, p := j.judge(faultSpec{Kind: fNone})
 	if p != nil {
@@ -417,9 +417,9 @@ func enumerate(h *history, st *core.Stats, quiet bool, only string, rng *core.Rn
 		if strings.Contains(historyKey(h), "gocall(") {
 			st.Inc("histories_with_native_to_js_callable")
 		}
-		st.Count("probes_fault_free", int64(ref.Probes))
+		st.Count("probes_fault_free", int64(ref.HistProbes))
 		st.Count("vm_instructions_fault_free", ref.Steps)
-		st.Max("max_probes_per_history", int64(ref.Probes))
+		st.Max("max_probes_per_history", int64(ref.HistProbes))
 		st.Max("max_instructions_per_history", ref.Steps)
 	}
 	try := func(f faultSpec) bool {
@@ -440,7 +440,7 @@ func enumerate(h *history, st *core.Stats, quiet bool, only string, rng *core.Rn
 		if !want(kind) {
 			continue
 		}
-		for k := 1; k <= ref.Probes; k++ {
+		for k := 1; k <= ref.HistProbes; k++ {
 			if !quiet {
 				st.Inc("probe_positions_enumerated")
 			}
@@ -462,7 +462,7 @@ func enumerate(h *history, st *core.Stats, quiet bool, only string, rng *core.Rn
 				}
 				return &violation{prob: *p, fault: faultSpec{Kind: fMaxCS, K: L}}, j.nontrivial, ""
 			}
-			if !obs.Overflowed {
+			if !obs.HistOverflowed {
 				if !quiet {
 					st.Count("call_depth_limits_swept", int64(maxLimit-L))
 					st.Count("call_depth_limits_equal_to_fault_free", int64(maxLimit-L+1))
@@ -476,7 +476,7 @@ func enumerate(h *history, st *core.Stats, quiet bool, only string, rng *core.Rn
 	if want(fStep) {
 		n := int(ref.Steps)
 		var pos []int
-		if n <= maxStepPositions {
+		if n <= maxStepPositions || (allSteps && n <= 4*maxStepPositions) {
 			for i := 1; i <= n; i++ {
 				pos = append(pos, i)
 			}
@@ -485,7 +485,7 @@ func enumerate(h *history, st *core.Stats, quiet bool, only string, rng *core.Rn
 			}
 		} else {
 			seen := map[int]bool{}
-			for len(pos) < maxStepPositions {
+			for len(pos) < stepSamples {
 				p := 1 + rng.Intn(n)
 				if !seen[p] {
 					seen[p] = true
@@ -548,6 +548,9 @@ func run(c *core.Ctx) core.Result {
 	if c.Index >= 0 {
 		h, viol = minimise(h, trees, viol, c.Rng.Fork())
 	}
+	if c.Replay {
+		fmt.Printf("signature: %s\n", signature(&viol.prob, viol.fault, h))
+	}
 	return core.Result{
 		Verdict: core.Violated, NonTrivial: true, Key: key,
 		Monitor:   viol.prob.Monitor,
@@ -587,7 +590,7 @@ func indent(s string) string {
 // minimise: greedy deletion of calls and of statements, keeping a violation of the same monitor and class under the
 // same fault kind (bounded number of re-enumerations).
 func minimise(h *history, trees [][]*node, v *violation, rng *core.Rng) (*history, *violation) {
-	budget := 60
+	budget := 120
 	quietStats := core.NewStats()
 	same := func(cand *history) *violation {
 		if budget <= 0 {
